@@ -648,6 +648,8 @@ func c09Streamed(c *mc.Ctx) {
 
 func c09Scenarios(tier mc.Tier) []mc.Scenario {
 	var out []mc.Scenario
+	out = append(out, mc.Scenario{Name: "C09-long-chains", Bound: -1, Expect: 4 * 4 * 3, Body: func(c *mc.Ctx) { longChains(c, "C09") },
+		Params: map[string]string{"lengths": "9, 10, 12, 17", "shapes": "all with responder / none with sources / first eight without / alternating", "entries": "validatecontext, validate, checkstatus"}})
 	out = append(out, mc.Scenario{Name: "C09-bodies-that-never-end", Bound: -1, Expect: int64(len(c09StreamTargets) * len(c09StreamStatus) * len(c09StreamPrefix) * 2), Body: c09Streamed,
 		Params: map[string]string{"targets": fmt.Sprint(c09StreamTargets), "statuses": fmt.Sprint(c09StreamStatus), "prefixes": fmt.Sprint(c09StreamPrefix), "horizonMiB": fmt.Sprint(c09Horizon >> 20)}})
 	for si, sd := range c09Seeds(tier) {
